@@ -7,16 +7,18 @@ sys.path.insert(0, os.path.dirname(os.path.abspath(__file__)))
 import bcheck
 VERIF = bcheck.VERIF
 ALL = [f"C{i:02d}" for i in range(1, 21)]
+# PROPS=C03,C18 in the environment: only these checks are re-run and merged into the recorded outcomes (after a change that touches only them)
+ONLY = [p for p in os.environ.get('PROPS', '').split(',') if p]
 # optional arguments: substrings a directory name must contain (e.g. `-r8-`), to refresh a subset only
 jobs = [(k, d) for k in ('seeded', 'benign') for d in sorted(os.listdir(os.path.join(VERIF, k))) if not sys.argv[1:] or any(a in d for a in sys.argv[1:])]
 def one(j):
     kind, d = j
-    return j, bcheck.run(os.path.join(VERIF, kind, d), ALL)
-with ThreadPoolExecutor(max_workers=4) as ex:
+    return j, bcheck.run(os.path.join(VERIF, kind, d), ONLY or ALL)
+with ThreadPoolExecutor(max_workers=8 if ONLY else 4) as ex:
     for (kind, d), res in ex.map(one, jobs):
         mp = os.path.join(VERIF, kind, d, 'meta.json')
         meta = json.load(open(mp))
-        det = {}
+        det = {k: v for k, v in meta.get('checks_on_changed_tree', {}).items() if k not in ONLY} if ONLY else {}
         if 'error' in res:
             print(kind, d, 'ERROR', res['error']); continue
         for p, (rc, lines) in sorted(res.items()):
